@@ -67,8 +67,11 @@ def merge_refuse(res, rng, tier):
                ("log16", 4, 2, 10**6 + 1, 1023), ("log16", 4, 2, 10**6, 1022), ("log8", 4, 2, 10**6, 15), ("log8", 5, 2, 10**6, 15), ("log8", 4, 3, 10**6, 15),
                ("log8", 4, 2, 10**6 + 1, 15), ("log8", 4, 2, 10**6, 14), ("log8", 4, 2, 2**32 - 1, 15), ("log16", 4, 2, 2**32 - 1, 1023),
                ("log16", 4, 2, 2**40, 1023), ("log16", 4, 2, 2**40 + 1, 1023), ("log16", 4, 2, 2**48, 1023), ("log16", 4, 2, 2**48 + 100, 1023),
-               ("log8", 4, 2, 2**60, 15), ("log8", 4, 2, 2**60 + 1, 15), ("log8", 4, 2, 2**32 - 2, 15)]
-    fam_hll = [("hll", 8, 0), ("hll", 9, 0), ("hll", 8, 1), ("hll", 8, 2**32), ("hll", 8, 2**63), ("hll", 8, 2**64 - 1), ("hll", 16, 0), ("hll", 7, 0)]
+               ("log8", 4, 2, 2**60, 15), ("log8", 4, 2, 2**60 + 1, 15), ("log8", 4, 2, 2**32 - 2, 15),
+               # values that differ by Python's integer-hash modulus 2^61 − 1 (equal hash(), equal low bits of many digests): still different parameters
+               ("log16", 4, 2, 10**6 + 2**61 - 1, 1023), ("log8", 4, 2, 10**6 + 2**61 - 1, 15)]
+    fam_hll = [("hll", 8, 0), ("hll", 9, 0), ("hll", 8, 1), ("hll", 8, 2**32), ("hll", 8, 2**63), ("hll", 8, 2**64 - 1), ("hll", 16, 0), ("hll", 7, 0),
+               ("hll", 8, 2**61 - 1), ("hll", 8, 2**61), ("hll", 8, 2**63 + 3), ("hll", 8, 7)]   # 0 ≡ 2^61−1, 1 ≡ 2^61, 7 ≡ 2^63+3 (mod 2^61 − 1)
     fam_hh = [("hh", 4, 2, 8, 0.5), ("hh", 5, 2, 8, 0.5), ("hh", 4, 3, 8, 0.5), ("hh", 4, 2, 7, 0.5), ("hh", 4, 2, 8, 0.25), ("hh", 4, 2, 8, None), ("hh", 1, 1, 1, None)]
     ops = []
     n = 0
@@ -182,6 +185,21 @@ def _saved_files(rng, tier):
             os.unlink(p)
             out.append((f"{label}-{w}x{d}", cl, ml, data, o))
             if (w, d) == shapes[0]:
+                # the same contents saved by a sketch that LIVES IN SHARED MEMORY (what parallel_add returns and what is usually saved): same container rules
+                try:
+                    osh = type(o)(w, d, shared_memory=True) if label != "hh" else type(o)(w, d, 5, shared_memory=True)
+                    for nm in ("cms", "lhh", "lhh_count", "key_lens", "n_added_records"):
+                        if hasattr(o, nm):
+                            getattr(osh, nm)[...] = getattr(o, nm)
+                    p = tmpfile()
+                    osh.save(p)
+                    data3 = open(p, "rb").read()
+                    os.unlink(p)
+                    out.append((f"{label}-{w}x{d}-saved-from-shared-memory", cl, ml, data3, o))
+                    del osh
+                    gc.collect()
+                except Exception as e:
+                    out.append((f"{label}-{w}x{d}-saved-from-shared-memory:ERROR {type(e).__name__}: {e}", cl, ml, b"", o))
                 # the same sketch saved OVER an existing, larger file of the same class (a re-used checkpoint path):
                 # what is on disk afterwards must again be exactly one complete container
                 p = tmpfile()
@@ -1223,10 +1241,32 @@ def hll_query(res, rng, tier):
         # uniform small ranks: E around 5m boundary (V = 0)
         for r in (1, 2, 3, 4):
             arrays.append((f"uniform-{r}", np().full(m, r, np().uint8)))
+        # the same register states through the two handles of a shared-memory block (owner and an attached view): query() is a function of the
+        # registers, whatever kind of handle holds them
+        hmod = s.hyperloglog if hasattr(s, "hyperloglog") else __import__("sketchnu.hyperloglog", fromlist=["x"])
+        if getattr(hmod.sleep, "__name__", "") == "sleep":
+            hmod.sleep = lambda s_: None
+        try:
+            owner = s.HyperLogLog(p, 0, shared_memory=True)
+            view = s.HyperLogLog(p, 0)
+            view.attach_existing_shm(owner.shm.name)
+        except Exception as e:
+            owner = view = None
+            res.oracle_failures.append({"pid": "C17", "what": f"C17 p={p}: cannot build a shared-memory sketch with an attached handle: {type(e).__name__}: {e}", "p": p})
         for label, regs in arrays:
             h.registers[:] = regs
             try:
                 real = float(h.query())
+                if owner is not None:
+                    owner.registers[:m] = regs
+                    for hname, hh_ in (("the owner of a shared-memory block", owner), ("a handle attached to a shared-memory block", view)):
+                        got = float(hh_.query())
+                        res.count("hll_query_through_shared_handles")
+                        if struct.pack("<d", got) != struct.pack("<d", real):
+                            for pid_ in ("C17", "C07"):
+                                res.oracle_failures.append({"pid": pid_, "what": f"{pid_} p={p} registers `{label}`: query() through {hname} = {got!r}, the in-memory sketch holding the same "
+                                                                                 f"registers answers {real!r}", "p": p, "label": label})
+                    hh_ = None
             except Exception as e:  # the estimator must return a number for EVERY register state
                 res.oracle_failures.append({"pid": "C17", "what": f"C17 p={p} registers `{label}`: query() raised {type(e).__name__}: {e}", "p": p, "label": label})
                 res.oracle_failures.append({"pid": "C07", "what": f"C07 p={p} registers `{label}`: query() raised {type(e).__name__}: {e}", "p": p, "label": label})
@@ -1262,6 +1302,10 @@ def hll_query(res, rng, tier):
                 ops.append([f"hll.set 9 {p} " + " ".join(map(str, lst)), None, "setup"])
                 ops.append(["hll.query 9", near, "float"])
         res.sample({"slice": "hll_query", "p": p, "arrays": [a[0] for a in arrays][:8]})
+        view = None
+        gc.collect()
+        owner = None
+        gc.collect()
     sess = Session()
     sess.add_case({"slice": "hll_query"}, ops)
     mism, ncmp = sess.run()
